@@ -191,9 +191,12 @@ impl<M: EntityMatcher> TryFrom<&config::FieldMatcher> for MatchAndExpr<M> {
     type Error = ImportError;
 
     fn try_from(from: &config::FieldMatcher) -> Result<Self, ImportError> {
-        let matchers: Result<Vec<M>, _> = from
-            .fields
-            .iter()
+        // the fields come from a hash map: fix their order, so that which capture wins
+        // doesn't depend on it.
+        let mut fields: Vec<(&config::RewriteField, &String)> = from.fields.iter().collect();
+        fields.sort_by_key(|(fd, _)| fd.to_string());
+        let matchers: Result<Vec<M>, _> = fields
+            .into_iter()
             .map(|(fd, v)| (*fd, v.as_str()).try_into())
             .collect();
         let matchers = matchers?;
@@ -213,9 +216,11 @@ impl<M: EntityMatcher> MatchAndExpr<M> {
         current: Fragment<'a>,
         entity: <M as Entity<'a>>::T,
     ) -> Option<Fragment<'a>> {
+        // every field sees the payee as left by the earlier rules,
+        // not what its sibling fields have captured.
         self.0.iter().try_fold(current.clone(), |prev, matcher| {
             matcher
-                .captures(&prev, entity)
+                .captures(&current, entity)
                 .map(|matched| prev.clone() + matched)
         })
     }
